@@ -496,7 +496,21 @@ def tr_wakepotential():
     return ext, bounds, row, col
 
 
+PLACES = [("src/SM/WakePotentialMap.cpp", "WakePotentialMap::update"), ("src/SM/KickMap.cpp", "KickMap::KickMap"),
+          ("src/SM/KickMap.cpp", "KickMap::updateSM"), ("src/SM/WakeKickMap.cpp", "WakeKickMap::WakeKickMap"),
+          ("src/SM/SourceMap.cpp", "SourceMap::SourceMap"), ("src/PS/ElectricField.cpp", "ElectricField::ElectricField"),
+          ("src/PS/ElectricField.cpp", "ElectricField::wakePotential")]
+
+
+def prefetch():
+    """the seven AST dumps in parallel (each is cached on disk by ast_of; a cold cache costs one clang run per place)"""
+    from concurrent.futures import ThreadPoolExecutor
+    with ThreadPoolExecutor(max_workers=6) as ex:
+        list(ex.map(lambda a: ast_of(*a), PLACES))
+
+
 def translate():
+    prefetch()
     ev, cnt, isrc, idst = tr_update()
     km = tr_kickmap_ctor()
     kdx = tr_wakekick_ctor()
